@@ -492,3 +492,8 @@ def _int_from_bool(m, args, raw):
     if isinstance(v, bool):
         return int(v)
     return z3.If(v, z3.IntVal(1), z3.IntVal(0))
+
+
+@model("Option::unwrap_or", "Result::unwrap_or")
+def _unwrap_or_default(m, args, raw):
+    return args[0].fields[0] if args[0].variant in ("Some", "Ok") else args[1]
